@@ -18,6 +18,9 @@ CHECKS = {
  "C04": dict(engine="E2 grammar/derivation enumerator", technique="bounded exhaustive enumeration of derivations of a reference grammar (full product at depth 1, every production/slot/sub-derivation chain beyond) x layouts, plus complete operator tables; each program parsed by the real parser and read back through the typed accessors; compared with the generated AST",
    text="Every program of the reference grammar up to the depth bound, printed in up to five layouts (spaces, tight, one token per line, comments between all tokens, doc comments), must parse with zero syntax errors and the tree read through syntax::ast accessors must equal the AST it was printed from; all 23x23 operator pairs, all triples over one representative per precedence level and prefix/postfix operands are compared with reference precedence climbing.",
    note="Depth 1 (full product over leaves, all five layouts) quick; depth 2 (1.8 million programs) thorough. Excluded from the grammar (named in DESIGN.md): chained tuple index x.0.1, 'x as y' on a bare variable, 'as' after a string-prefix pattern, negative literal patterns, bit-array contents. The operator of a BINARY_OP is read as raw token.", ref="5/C04"),
+ "C05": dict(engine="E2 scope-aware generator + E3", technique="bounded exhaustive enumeration of scoping skeletons x every assignment of names from a 2-name pool to all binder and use slots x module contexts, on the real goto_definition; reference scope resolver as oracle",
+   text="Every program = (module context, statement skeleton, name assignment): 36 contexts (top-level items with the pool names, 6 import forms, 0-2 parameters) x skeletons built from 17 statement shapes (let with tuple/list-spread/constructor-label/as/string-prefix patterns, use with 1-2 binders, case with 1-2 subjects, alternatives, guards, lambdas, blocks, pipes into lambdas, nested bodies, sequences) x ALL functions from slots to {x, y}. For every identifier occurrence go-to-definition must land on the declaration the reference resolver computes (name inside focus inside full range, no other declaration in the focus), or nowhere when nothing is bound.",
+   note="Programs Gleam rejects (one name bound twice in one pattern, unqualified import clashing with a top-level name) are skipped. Outside the core (safety half only): labels in function calls, record field access, alias spellings, guards. Private items named through an import may resolve to themselves or to nothing.", ref="5/C05"),
  "C06": dict(engine="E3 query sweeper", technique="bounded exhaustive enumeration of single-edit workspace variants x every identifier occurrence on the real Analysis API; relational invariant between references, goto_definition and highlight_related",
    text="For every base workspace, every single-token edit variant and every pathological shape, at EVERY identifier occurrence the three real answers are compared: references listed = occurrences whose goto leads to the declaration, declaration's own name included, no duplicates, same set from every listed occurrence, highlight = references in the file.",
    note="No hand-written expectations: the oracle is a relation between real answers. Workspaces: 3 bases (6 modules, 2 packages) + 30 pathological shapes; generated scoping programs are added by C05's generator.", ref="5/C06"),
@@ -39,6 +42,9 @@ CHECKS = {
  "C17": dict(engine="configuration enumerator + in-process router on real directory trees", technique="exhaustive enumeration of project-tree configurations x open orders through the real loader (didOpen on the real router, real files), against a reference model of Gleam's project layout",
    text="64 trees (registry-style dependency, path dependency, transitive dependency, direct dependency on the transitive one, nested package root, module in src/ vs test/, nested module directories, equal module names, free-standing file) x every open order of up to k documents: for every qualified call go-to-definition must land in a file the layout model allows (or nowhere), prepareRename must refuse build/packages symbols and accept local ones, the free-standing file must answer.",
    note="k=2 quick, k=3 thorough. Path dependencies without registry dependencies of their own. Paths compared after resolving '..'.", ref="5/C17"),
+ "C18": dict(engine="E2 scope-aware generator + E3", technique="bounded exhaustive enumeration of C05's programs x every expression position on the real completions; reference resolver's visible-name map as oracle; accept-and-resolve by re-analysis",
+   text="At every expression identifier of every generated program the offered value names (keywords and built-in constructors aside) must equal the names the reference resolver finds visible there (locals innermost-first, module functions/constants/constructors, unqualified imports under their local spelling, module accessors); every item replaces exactly the identifier being typed; replacing it by the item and asking go-to-definition lands on the declaration the resolver gives for that name. A fixed layer checks `module.` (exactly the public functions and constructors) and `value.` (only fields of the value's type).",
+   note="Quick: single-statement skeletons, 12 contexts; thorough: all of C05's programs. The dot layer is a fixed list.", ref="5/C18"),
  "C19": dict(engine="E1 input-space enumerator + in-process router", technique="bounded exhaustive enumeration of documents x highlight lists through the real relative encoder, decoded by a reference LSP client; end-to-end runs of semanticTokens/full through the real router compared with the analysis' own classification of every identifier",
    text="Encoder: every document up to L symbols over {a, space, LF, 2-byte, 4-byte} x every subset of its identifier runs as highlight list x tag assignments: the stream must decode to exactly the reference conversion, strictly increasing, inside lines, no overflow. End to end: every token of the stream is a function / constructor / module identifier with the right type and every such USE is present (declarations and import items may be tagged).",
    note="The end-to-end layer uses fixed projects (not exhaustive, reported as such); its classification oracle is relational (go-to-definition target kind, hover type).", ref="5/C19"),
